@@ -5,6 +5,7 @@ import Sebuf.DriverC02
 import Sebuf.DriverC01
 import Sebuf.DriverC09
 import Sebuf.DriverC10
+import Sebuf.DriverC13
 namespace Sebuf.DriverOps
 open Lean (Json)
 def dispatch (op : String) (j : Json) : Json :=
@@ -18,6 +19,7 @@ def dispatch (op : String) (j : Json) : Json :=
   | "client_url" => Sebuf.Driver.opClientUrl j
   | "header_check" => Sebuf.Driver.opHeaderCheck j
   | "error_case" => Sebuf.Driver.opErrorCase j
+  | "build_defects" => Sebuf.Driver.opBuildDefects j
   | "strfn" => Sebuf.Driver.opStrFn j
   | _ => Json.mkObj [("driver_err", Json.str ("unknown op " ++ op))]
 end Sebuf.DriverOps
